@@ -214,4 +214,140 @@ theorem crc32_flip (m : List UInt8) (i : Nat) (h : i < 8 * m.length) : crc32 (fl
   exact this
 
 
+
+/-! ### the table-driven form equals the bitwise definition -/
+
+
+theorem shift8_eq_run (s : BitVec 32) : shift8 s = run s (List.replicate 8 false) := rfl
+
+/-- linearity of a run over equally long inputs, in the form used here: the state difference
+    travels through zero inputs -/
+theorem run_xor_zeros (l : List Bool) (a d : BitVec 32) :
+    run (a ^^^ d) l = run a l ^^^ run d (List.replicate l.length false) := by
+  induction l generalizing a d with
+  | nil => simp [run]
+  | cons y ys ih =>
+    simp only [run, List.foldl_cons, List.length_cons, List.replicate_succ] at ih ⊢
+    have := stepBit_xor a d y false
+    simp only [Bool.xor_false] at this
+    rw [this]; exact ih _ _
+
+theorem shift8_xor (a d : BitVec 32) : shift8 (a ^^^ d) = shift8 a ^^^ shift8 d := by
+  rw [shift8_eq_run, shift8_eq_run, shift8_eq_run]
+  have := run_xor_zeros (List.replicate 8 false) a d
+  simpa using this
+
+/-- feeding the bits of a byte into the zero state = shifting the byte out of the state (complete table) -/
+theorem run_zero_byte : ∀ v : BitVec 8,
+    run 0#32 (byteBits (UInt8.ofBitVec v)) = shift8 (BitVec.ofNat 32 v.toNat) := by decide
+
+
+
+theorem stepBit_false_even (t : BitVec 32) (h : t.getLsbD 0 = false) : stepBit t false = t >>> 1 := by
+  unfold stepBit
+  simp [bitv, mask, h, ← BitVec.getLsbD_eq_getElem]
+
+theorem run_zeros_shift (k : Nat) (t : BitVec 32) (h : ∀ j, j < k → t.getLsbD j = false) :
+    run t (List.replicate k false) = t >>> k := by
+  induction k generalizing t with
+  | zero => simp [run]
+  | succ k ih =>
+    simp only [run, List.replicate_succ, List.foldl_cons]
+    rw [stepBit_false_even t (h 0 (by omega))]
+    have := ih (t >>> 1) (fun j hj => by
+      rw [BitVec.getLsbD_ushiftRight]; exact h (1 + j) (by omega))
+    simp only [run] at this
+    rw [this, ← BitVec.shiftRight_add, Nat.add_comm]
+
+theorem split_lo_hi (x : BitVec 32) : x = (x &&& 0xff#32) ^^^ (x &&& 0xffffff00#32) := by
+  have : ∀ a : Bool, ∀ b : Bool, a = ((a && b) ^^ (a && !b)) := by decide
+  ext i hi
+  simp only [← BitVec.getLsbD_eq_getElem, BitVec.getLsbD_xor, BitVec.getLsbD_and]
+  have hm : (0xffffff00#32).getLsbD i = !(0xff#32).getLsbD i := by
+    have : ∀ j : Fin 32, (0xffffff00#32).getLsbD j.val = !(0xff#32).getLsbD j.val := by decide
+    exact this ⟨i, hi⟩
+  rw [hm]; exact this _ _
+
+theorem hi_low_zero (x : BitVec 32) (j : Nat) (hj : j < 8) : (x &&& 0xffffff00#32).getLsbD j = false := by
+  rw [BitVec.getLsbD_and]
+  have : ∀ j : Fin 8, (0xffffff00#32).getLsbD j.val = false := by decide
+  rw [this ⟨j, hj⟩]; simp
+
+theorem hi_shift (x : BitVec 32) : (x &&& 0xffffff00#32) >>> 8 = x >>> 8 := by
+  ext i hi
+  simp only [BitVec.getElem_ushiftRight, BitVec.getLsbD_and]
+  by_cases h : 8 + i < 32
+  · have : ∀ j : Fin 24, (0xffffff00#32).getLsbD (8 + j.val) = true := by decide
+    rw [this ⟨i, by omega⟩]; simp
+  · have h1 : x.getLsbD (8 + i) = false := BitVec.getLsbD_of_ge x (8 + i) (by omega)
+    rw [h1]; simp
+
+theorem table_get (i : Nat) (h : i < 256) : table[i]! = shift8 (BitVec.ofNat 32 i) := by
+  have hs : table.size = 256 := by simp [table]
+  rw [getElem!_pos table i (by rw [hs]; exact h)]
+  simp [table]
+
+theorem lo_lt (x : BitVec 32) : (x &&& 0xff#32).toNat < 256 := by
+  rw [BitVec.toNat_and]
+  exact Nat.lt_of_le_of_lt Nat.and_le_right (by decide)
+
+/-- the table step (on bit vectors) is the eight bit steps -/
+theorem stepByteB_eq (s : BitVec 32) (b : UInt8) : stepByteB s b = stepByte s b := by
+  have h1 : stepByte s b = shift8 (s ^^^ BitVec.ofNat 32 b.toNat) := by
+    rw [stepByte_eq]
+    have := run_xor_zeros (byteBits b) 0#32 s
+    rw [BitVec.zero_xor] at this
+    rw [this]
+    have hb := run_zero_byte b.toBitVec
+    simp only [UInt8.ofBitVec_toBitVec] at hb
+    rw [hb, shift8_xor, BitVec.xor_comm]
+    rfl
+  rw [h1]
+  unfold stepByteB
+  simp only
+  generalize s ^^^ BitVec.ofNat 32 b.toNat = x
+  rw [table_get _ (lo_lt x)]
+  conv => rhs; rw [split_lo_hi x]
+  rw [shift8_xor]
+  congr 1
+  · congr 1
+    apply BitVec.eq_of_toNat_eq
+    simp
+  · rw [shift8_eq_run, run_zeros_shift 8 _ (hi_low_zero x), hi_shift]
+
+theorem tableU_get (i : Nat) (h : i < 256) : (tableU[i]!).toBitVec = table[i]! := by
+  have hs : table.size = 256 := by simp [table]
+  have hu : tableU.size = 256 := by simp [tableU, hs]
+  rw [getElem!_pos tableU i (by rw [hu]; exact h), getElem!_pos table i (by rw [hs]; exact h)]
+  simp [tableU]
+
+/-- the machine-word step is the bit-vector step -/
+theorem stepByteT_eq (s : UInt32) (b : UInt8) : (stepByteT s b).toBitVec = stepByteB s.toBitVec b := by
+  unfold stepByteT stepByteB
+  simp only
+  have hx : (s ^^^ b.toUInt32).toBitVec = s.toBitVec ^^^ BitVec.ofNat 32 b.toNat := by
+    rw [UInt32.toBitVec_xor]
+    congr 1
+    apply BitVec.eq_of_toNat_eq
+    simp [Nat.mod_eq_of_lt (Nat.lt_trans b.toNat_lt (by decide : 2 ^ 8 < 2 ^ 32))]
+  have hidx : ((s ^^^ b.toUInt32) &&& 0xff).toNat = ((s.toBitVec ^^^ BitVec.ofNat 32 b.toNat) &&& 0xff#32).toNat := by
+    rw [← hx]; rfl
+  rw [UInt32.toBitVec_xor, hidx, tableU_get _ (lo_lt _)]
+  congr 1
+  rw [← hx]
+  rfl
+
+theorem updateT_eq (s : UInt32) (bs : List UInt8) : (updateT s bs).toBitVec = update s.toBitVec bs := by
+  induction bs generalizing s with
+  | nil => rfl
+  | cons b bs ih =>
+    show (updateT (stepByteT s b) bs).toBitVec = update (stepByte s.toBitVec b) bs
+    rw [ih, stepByteT_eq, stepByteB_eq]
+
+/-- the table-driven CRC-32 (machine words, one look-up per byte) is the bitwise CRC-32, for every input -/
+theorem crc32_table_eq (bs : List UInt8) : crc32T bs = crc32 bs := by
+  unfold crc32T crc32
+  rw [updateT_eq]
+  rfl
+
 end Fatchoy.Crc32
